@@ -149,6 +149,7 @@ class RegexVM:
         self.stack_limit = stack_limit
         self.poll_interval = poll_interval
         self.step_limit = step_limit
+        self._since_poll = 0
 
         self.ignorecase = "i" in flags
         self.multiline = "m" in flags
@@ -231,7 +232,11 @@ class RegexVM:
         while True:
             # Check limits periodically; look-around bodies count on the same budget
             self._step_count += 1
-            if self._step_count % self.poll_interval == 0:
+            # The poll counter runs on across attempts: a search made of many
+            # short attempts polls as often as one long attempt
+            self._since_poll += 1
+            if self._since_poll >= self.poll_interval:
+                self._since_poll = 0
                 if self.poll_callback and self.poll_callback():
                     raise RegexTimeoutError("Regex execution timed out")
 
